@@ -134,13 +134,11 @@ Definition status_err (rest : bytes) (dflt : resp) (mk : rerr -> resp) : res res
   | Some e => Ok (mk e)
   end.
 
-(* VersionResponse.Decode.  response[0:2] is taken on the slice returned by UnwrapDnsResponse: that slice was grown
-   by append from make([]byte, 0), so whenever it holds at least one octet its capacity is at least 8 and the
-   octets between its length and its capacity are zero; a response of fewer than three octets therefore does not
-   panic here, the two characters read are NULs and ParseInt fails. *)
+(* VersionResponse.Decode: a response too short to hold the two characters of the user id is an error *)
 Definition decode_ver (r : bytes) : res resp :=
   let r1 := tl r in
-  do uid <- parse_uid (firstn 2 (r1 ++ [0; 0])) ;;
+  if (length r1 <? 2)%nat then Err (wd "short") else
+  do uid <- parse_uid (firstn 2 r1) ;;
   do val <- decode Base32 (skipn 2 r1) ;;
   match val with
   | a :: b :: c :: d :: rest =>
@@ -222,19 +220,19 @@ Definition lower_first (b : N) : N :=
 Definition is_of_type (code b : N) : bool := (b =? code) || (lower_first b =? code).
 
 (* Serializer.DecodeDnsResponseWithParams after UnwrapDnsResponse: Commands is scanned in its declared order
-   v l o r y z m c e; the reserved commands l and m have no NewResponse (calling the nil func panics);
-   IsOfType indexes data[0] of an empty, non-nil slice *)
+   v l o r y z m c e; IsOfType answers false on an empty payload; the reserved commands l and m have no NewResponse
+   and leave the loop: all of these end in the "Invalid response from server" error *)
 Definition decode_resp (c : codec) (data : bytes) : res resp :=
   match data with
-  | [] => Panic (wd "commands.Command.IsOfType")
+  | [] => Err (wd "unknown")
   | b :: _ =>
     if is_of_type CODE_V b then decode_ver data
-    else if is_of_type CODE_L b then Panic (wd "commands.Serializer.DecodeDnsResponseWithParams")
+    else if is_of_type CODE_L b then Err (wd "unknown")
     else if is_of_type CODE_O b then decode_opt data
     else if is_of_type CODE_R b then decode_frag c data
     else if is_of_type CODE_Y b then decode_down c data
     else if is_of_type CODE_Z b then decode_up data
-    else if is_of_type CODE_M b then Panic (wd "commands.Serializer.DecodeDnsResponseWithParams")
+    else if is_of_type CODE_M b then Err (wd "unknown")
     else if is_of_type CODE_C b then decode_pkt c data
     else if is_of_type CODE_E b then decode_error data
     else Err (wd "unknown")
@@ -496,11 +494,3 @@ Definition resp_wf (r : resp) : bool :=
   end.
 
 Definition lossless (c : codec) : bool := match c with Base192 => false | _ => true end.
-
-(* the guard under which DecodeDnsResponseWithParams does not panic (property C12): the unwrapped payload is not
-   empty and does not start with one of the reserved command letters l/L, m/M (whose NewResponse is nil) *)
-Definition decode_guard (data : bytes) : bool :=
-  match data with
-  | [] => false
-  | b :: _ => negb (is_of_type CODE_L b || is_of_type CODE_M b)
-  end.
